@@ -110,7 +110,7 @@ theorem exec_opposite_forever (es : List Exec.Ev) (s s' : Exec.St) (hnd : s.idsN
     (hr : Exec.run s es = some s') : s'.opposite = true :=
   Exec.opposite_forever es s s' hnd ho hr
 
-/-- **every other execute call returns** (`exec_returns_partial`): as long as the two coroutine
+/-- one step of it (`exec_returns_partial`, kept from the second session): as long as the two coroutine
 threads do not wait for each other, some call in flight can always make progress - its payload
 can start on its target thread, or it has started and its outcome can be handed to the caller.
 Calls go to the event-loop thread, the trio thread, or run in the caller's own thread
@@ -119,6 +119,15 @@ theorem exec_returns_partial (s : Exec.St) (hnd : s.idsNodup) (hw : s.wellTarget
     (hop : s.opposite = false) :
     ∃ id s', Exec.step s (.begin id) = some s' ∨ Exec.step s (.finish id) = some s' :=
   Exec.canProgress_enabled s hnd (Exec.progress_unless_opposite s hw hne hop)
+
+/-- **every execute call returns - unless the two coroutine threads wait for each other**: from any
+state without that deadlock all calls in flight can be completed, by payload starts and returns
+alone (no further calls needed); with `exec_opposite_forever` this makes the opposite-direction
+deadlock the exact condition under which `execute` hangs in the model. What the model leaves out
+is the payloads' own behaviour (a payload that never ends never returns) and fairness. -/
+theorem exec_returns (s : Exec.St) (hnd : s.idsNodup) (hw : s.wellTargeted = true) (hop : s.opposite = false) :
+    ∃ es s', Exec.run s es = some s' ∧ s'.calls = [] ∧ (∀ e ∈ es, ∃ id, e = .begin id ∨ e = .finish id) :=
+  Exec.drain s.mu s (Nat.le_refl _) hnd hw hop
 
 -- non-vacuity: three calls in flight (outside -> asyncio, trio -> asyncio, a threading payload run by its caller)
 example : ((Exec.run Exec.St.init [.call 1 5 0, .call 2 1 0, .call 3 6 6, .begin 3, .begin 1, .finish 1, .begin 2]).map
